@@ -161,6 +161,7 @@ class Driver:
         RE.ignore_callback_exceptions = bool(recfg.get("ignore_callback_exceptions", False))
         RE.msg_hook = self._msg_hook
         RE.state_hook = self._state_hook
+        self.inflight = None  # command whose coroutine is suspended right now (an await inside the command)
         if case.get("sim", {}).get("trace_commands", True):
             self._wrap_commands()
         _orig_request_suspend = RE.request_suspend
@@ -201,8 +202,12 @@ class Driver:
         def wrap(name, fn):
             async def traced(msg):
                 mid = ctx.mid_of(msg)
+                self.inflight = name
                 try:
-                    r = await fn(msg)
+                    try:
+                        r = await fn(msg)
+                    finally:
+                        self.inflight = None
                 except asyncio.CancelledError:
                     sim.record("cmd", mid=mid, cmd=name, end="cancelled", state=str(RE.state))
                     raise
@@ -245,6 +250,13 @@ class Driver:
 
     def _state_hook(self, new, old):
         self.sim.record("state", new=str(new), old=str(old))
+        # anchor {"state": s, "occ": i, "plus": j}: j handles after the engine entered state s for the i-th time in this call
+        for inj in self.pending:
+            at = inj["at"]
+            if "state" in at and not inj.get("_armed") and at["state"] == str(new):
+                inj["_seen"] = inj.get("_seen", 0) + 1
+                if inj["_seen"] > at.get("occ", 0):
+                    inj["_armed"] = self.sim.nsteps + 1 + at.get("plus", 0)
 
     def _recorder(self, name, doc):
         self.sim.record("doc", name=name, doc=copy.deepcopy(doc))
@@ -260,7 +272,7 @@ class Driver:
             due = False
             if "step" in at:
                 due = sim.nsteps - self.call_start_step >= at["step"]
-            elif "msg" in at:
+            elif "msg" in at or "state" in at:
                 due = inj.get("_armed") is not None and sim.nsteps >= inj["_armed"]
             elif "time" in at:
                 due = sim.now - self.call_start_time >= at["time"] - 1e-9
@@ -280,6 +292,7 @@ class Driver:
         state0 = str(RE.state)
         rec = {"do": do, "state": state0, "args": inj.get("args"), "id": inj.get("id")}
         sim.record("inject_begin", **rec)
+        self._note_context(do, state0)
         outcome = "ok"
         text = ""
         try:
@@ -334,6 +347,35 @@ class Driver:
             state0=state0,
             dpr=bool(RE.deferred_pause_requested),
         )
+
+    def _note_context(self, do, state0):
+        """Reach measurement only (never read by an oracle, never draws from a PRNG): the situation in which an
+        external request lands - action, engine state, command suspended in an await, bundling, resumable,
+        open runs, whether the plan is already exhausted, whether a suspension is in effect."""
+        RE, sim = self.RE, self.sim
+        try:
+            bundlers = list(RE._run_bundlers.values())
+            bundling = any(getattr(b, "bundling", False) for b in bundlers)
+            nopen = sum(1 for b in bundlers if getattr(b, "run_is_open", False))
+            resumable = RE._msg_cache is not None
+            exhausted = len(RE._plan_stack) == 0
+        except Exception:
+            return
+        infl = self.inflight or "-"
+        sim.contexts.add("|".join([do, state0, infl, "bundling" if bundling else "-", "resumable" if resumable else "nonresumable", f"runs={min(nopen, 2)}", "plan-exhausted" if exhausted else "-"]))
+        if do in ("pause", "dpause", "abort", "stop", "halt", "trip"):
+            if self.inflight:
+                sim.probe("request_while_command_awaits:" + self.inflight)
+            if state0 != "running":
+                sim.probe("request_in_state:" + state0)
+            if bundling:
+                sim.probe("request_inside_event_bundle")
+            if not resumable and state0 == "running":
+                sim.probe("request_in_nonresumable_section")
+            if exhausted and state0 == "running":
+                sim.probe("request_after_plan_exhausted")
+            if nopen >= 2:
+                sim.probe("request_with_two_runs_open")
 
     # -- the user script ---------------------------------------------------------------
     def _blocking(self, api, fn, injections):
